@@ -253,6 +253,7 @@ def build_test(world: World, tbs, t):
             except Exception:  # noqa: BLE001,S112
                 continue
         # the same inputs, written into the document per entity instance
+        written = []
         for var, per in applied:
             spec = world.var_specs[var]
             pop = sim.populations[spec["entity"]]
@@ -260,6 +261,7 @@ def build_test(world: World, tbs, t):
             if arr is None:
                 continue
             plural = pop.entity.plural
+            n_written = 0
             for idx, iid in enumerate(pop.ids):
                 iid = str(iid)
                 if iid not in doc.get(plural, {}):
@@ -267,11 +269,30 @@ def build_test(world: World, tbs, t):
                 x = arr[idx]
                 val = _yaml_value(world, spec, arr, idx)
                 doc[plural][iid].setdefault(var, {})[per] = val
-        # rebuild from the final document so that harness and runner see the same inputs
+                n_written += 1
+            if n_written:
+                # every instance declared: the input is what was given; some created
+                # automatically: what they hold is the builder's business (C12, n/a)
+                written.append((var, per, arr.copy() if n_written == pop.count else None))
+        # The harness's own simulation: the structure from the builder, the inputs the
+        # document carries given through Simulation.set_input (shorter periods first, as
+        # the builder does) - the runner reads them from the document instead.
+        try:
+            # (a document the builder itself refuses - e.g. inputs for a group kind some
+            # of whose instances are created automatically - decides nothing: C12, n/a)
+            probe = SimulationBuilder()
+            probe.set_default_period(t["period"])
+            probed = probe.build_from_dict(tbs, copy.deepcopy(doc))
+            written = [(var, per, given if given is not None else probed.get_array(var, per)) for var, per, given in written]
+            written = [w for w in written if w[2] is not None]
+        except Exception:  # noqa: BLE001
+            return None
         builder = SimulationBuilder()
         builder.set_default_period(t["period"])
         try:
-            sim = builder.build_from_dict(tbs, copy.deepcopy(doc))
+            sim = builder.build_from_dict(tbs, copy.deepcopy(t["situation"]))
+            for var, per, given in sorted(written, key=lambda w: periods.key_period_size(periods.period(w[1]))):
+                sim.set_input(var, per, given)
         except Exception:  # noqa: BLE001
             return None
     output = {}
